@@ -226,7 +226,13 @@ SyntaxVisitor::Action DeclarationBinder::visitVariableAndOrFunctionDeclaration(
 
 SyntaxVisitor::Action DeclarationBinder::visitFieldDeclaration(const FieldDeclarationSyntax* node)
 {
-    return visitFieldDeclaration_AtSpecifiers(node);
+    // A member is a member also when its structure or union is declared
+    // within a declarator of a typedef (in a parameter or a type name).
+    auto inTydefDecltor = F_.inTydefDecltor_;
+    F_.inTydefDecltor_ = false;
+    auto action = visitFieldDeclaration_AtSpecifiers(node);
+    F_.inTydefDecltor_ = inTydefDecltor;
+    return action;
 }
 
 SyntaxVisitor::Action DeclarationBinder::visitEnumeratorDeclaration(const EnumeratorDeclarationSyntax* node)
